@@ -176,3 +176,30 @@ Proof.
 Qed.
 Print Assumptions C02_policy_source_translation_agrees.
 Print Assumptions C02_policy_source_constants.
+
+(* The two filters that consult the policy, translated from pkg/apply/filter on every run as guarded statement lists
+   and interpreted by `PolicySrcAgree.exec_filter` (stuck on any condition, assignment or returned expression other
+   than the ones the pinned source uses): the apply filter sends no GET under AdoptAll; otherwise it reads the live
+   object once, a failed read ends the run whatever the error, NotFound passes, a found object is judged by the
+   translated CanApply on its owner.  The prune filter is the translated CanPrune on the object read at plan time. *)
+Theorem C02_policy_filters_source_translation_agree :
+  (forall sc s i,
+     policy_apply_filter sc s i =
+       match PolicySrcAgree.exec_filter (o_policy (sc_opts sc)) None None PolicySrcAgree.ENil SourceTables.src_policy_apply_filter with
+       | PolicySrcAgree.FDone r => (s, r)
+       | _ => let '(s1, g) := get_obj sc s i in
+              (s1, match PolicySrcAgree.exec_filter (o_policy (sc_opts sc)) (Some g) None PolicySrcAgree.ENil SourceTables.src_policy_apply_filter with
+                   | PolicySrcAgree.FDone r => r
+                   | _ => FFatal
+                   end)
+       end) /\
+  (forall pol g, exists r,
+     PolicySrcAgree.exec_filter pol (Some g) None PolicySrcAgree.ENil SourceTables.src_policy_apply_filter = PolicySrcAgree.FDone r) /\
+  (forall sc (c : cobj),
+     PolicySrcAgree.exec_filter (o_policy (sc_opts sc)) None (Some (c_owner c)) PolicySrcAgree.ENil SourceTables.src_policy_prune_filter
+       = PolicySrcAgree.FDone (if can_prune sc (c_owner c) then FPass else FSkip)).
+Proof.
+  exact (conj PolicySrcAgree.src_policy_apply_filter_agrees
+        (conj PolicySrcAgree.src_policy_apply_filter_total PolicySrcAgree.src_policy_prune_filter_agrees)).
+Qed.
+Print Assumptions C02_policy_filters_source_translation_agree.
